@@ -1,1 +1,170 @@
-(* placeholder: to be written *)
+(** Trace checker for the proxy-DEX correspondence run (property C16): replays the operations the
+    harness executed on the real composed system (pair + two farms with locked rewards + energy
+    factory + proxy_dex) and compares every observation.  Returns [] or
+    [index; field; model value; implementation value] for the first difference.
+
+    Field codes: 1 ok/err, 2.. returned payments (2 count, 3 token, 4 nonce, 5 amount),
+    10 base, 11 other token, 12 LP (proxy balances), 20 farm tokens, 21 locked tokens, 22 wrapped LP
+    tokens of the proxy, 30/31 holders of wrapped LP / farm tokens, 40.. wrapped LP attributes,
+    50.. wrapped farm attributes, 60/61 supply per wrapped nonce, 70 base supply change, 71 locked
+    supply change, 80..82 energy entry written, 900 an interface law is violated by a real response. *)
+From MX Require Import Base.Prelude Gen.Params Model.ProxyDex.
+
+Record pobs := mkObs {
+  o_ok : bool;
+  o_outs : list pay;
+  o_base : Z; o_other : Z; o_lp : Z;
+  o_farm : list (Z * Z); o_locked : list (Z * Z); o_pwlp : list (Z * Z);
+  o_hlp : list (Z * Z); o_hfm : list (Z * Z);
+  o_wlp : list (Z * (Z * Z * Z));                    (* nonce -> (T, k, L) of the nonces created by the operation *)
+  o_wfm : list (Z * (Z * Z * Z * Z * Z * Z));        (* nonce -> (farm, f, T, kind, pn, P) *)
+  o_suplp : list (Z * Z); o_supfm : list (Z * Z);    (* total ESDT supply of every wrapped nonce *)
+  o_dbase : Z; o_dlocked : Z;                        (* change of the global base / locked supply *)
+  o_energy : penergy                                 (* the caller's energy entry after the operation *)
+}.
+
+Fixpoint first_map_diff (m l : list (Z * Z)) : option (Z * Z * Z) :=
+  match l with
+  | [] => None
+  | (k, v) :: t => if aget m k =? v then first_map_diff m t else Some (k, aget m k, v)
+  end.
+
+Definition cmp_map (i code : Z) (m l : list (Z * Z)) : list Z :=
+  match first_map_diff m l with
+  | Some (k, a, b) => [i; code; a; b]
+  | None => if asum m =? asum l then [] else [i; code + 1000; asum m; asum l]
+  end.
+
+Fixpoint cmp_outs (i : Z) (a b : list pay) : list Z :=
+  match a, b with
+  | [], [] => []
+  | (t, n, x) :: a', (t', n', x') :: b' =>
+      if negb (t =? t') then [i; 3; t; t']
+      else if negb (x =? x') then [i; 5; x; x']
+      else if negb ((n =? n') || (x =? 0)) then [i; 4; n; n']
+      else cmp_outs i a' b'
+  | _, _ => [i; 2; Z.of_nat (length a); Z.of_nat (length b)]
+  end.
+
+Fixpoint cmp_wlp (i : Z) (s : state) (l : list (Z * (Z * Z * Z))) : list Z :=
+  match l with
+  | [] => []
+  | (n, (T, k, L)) :: t =>
+      match getn (s_wlp s) n with
+      | None => [i; 40; n; 0]
+      | Some w =>
+          if negb (wl_T w =? T) then [i; 41; wl_T w; T]
+          else if negb (wl_k w =? k) then [i; 42; wl_k w; k]
+          else if negb (wl_L w =? L) then [i; 43; wl_L w; L]
+          else cmp_wlp i s t
+      end
+  end.
+
+Fixpoint cmp_wfm (i : Z) (s : state) (l : list (Z * (Z * Z * Z * Z * Z * Z))) : list Z :=
+  match l with
+  | [] => []
+  | (m, (farm, f, T, kind, pn, P)) :: t =>
+      match getn (s_wfm s) m with
+      | None => [i; 50; m; 0]
+      | Some w =>
+          if negb (wf_farm w =? farm) then [i; 51; wf_farm w; farm]
+          else if negb (wf_f w =? f) then [i; 52; wf_f w; f]
+          else if negb (wf_T w =? T) then [i; 53; wf_T w; T]
+          else if negb (wf_kind w =? kind) then [i; 54; wf_kind w; kind]
+          else if negb (wf_pn w =? pn) then [i; 55; wf_pn w; pn]
+          else if negb (wf_P w =? P) then [i; 56; wf_P w; P]
+          else cmp_wfm i s t
+      end
+  end.
+
+Fixpoint cmp_suplp (i : Z) (s : state) (l : list (Z * Z)) : list Z :=
+  match l with
+  | [] => []
+  | (n, v) :: t =>
+      match getn (s_wlp s) n with
+      | None => [i; 60; n; v]
+      | Some w => if wl_live w + wl_dead w =? v then cmp_suplp i s t else [i; 60; wl_live w + wl_dead w; v]
+      end
+  end.
+
+Fixpoint cmp_supfm (i : Z) (s : state) (l : list (Z * Z)) : list Z :=
+  match l with
+  | [] => []
+  | (n, v) :: t =>
+      match getn (s_wfm s) n with
+      | None => [i; 61; n; v]
+      | Some w => if wf_sup w =? v then cmp_supfm i s t else [i; 61; wf_sup w; v]
+      end
+  end.
+
+Definition first_nonempty (l : list (list Z)) : list Z :=
+  fold_right (fun d acc => match d with [] => acc | _ => d end) [] l.
+
+Definition cmp_state (i : Z) (s : state) (o : pobs) : list Z :=
+  first_nonempty [
+    (if s_base s =? o_base o then [] else [i; 10; s_base s; o_base o]);
+    (if s_other s =? o_other o then [] else [i; 11; s_other s; o_other o]);
+    (if s_lp s =? o_lp o then [] else [i; 12; s_lp s; o_lp o]);
+    cmp_map i 20 (s_farm s) (o_farm o);
+    cmp_map i 21 (s_locked s) (o_locked o);
+    cmp_map i 22 (s_pwlp s) (o_pwlp o);
+    cmp_map i 30 (s_hlp s) (o_hlp o);
+    cmp_map i 31 (s_hfm s) (o_hfm o);
+    cmp_wlp i s (o_wlp o);
+    cmp_wfm i s (o_wfm o);
+    cmp_suplp i s (o_suplp o);
+    cmp_supfm i s (o_supfm o)].
+
+(** what the environment does to the global supplies in the same transaction: the base-asset farm
+    burns the exit penalty it keeps; the factory mints the locked rewards *)
+Definition env_base_burn (o : op) : Z :=
+  match o with
+  | ExitFarm _ farm p e => if farm =? 0 then p_amt p - snd (v_farm e) else 0
+  | _ => 0
+  end.
+
+Definition env_locked_mint (o : op) : Z :=
+  match o with
+  | EnterFarm _ _ _ _ e | ExitFarm _ _ _ e | ClaimRew _ _ _ e => snd (v_rew e)
+  | _ => 0
+  end.
+
+Definition cmp_energy (i : Z) (x : eff) (o : pobs) : list Z :=
+  match x_energy x with
+  | None => []
+  | Some en =>
+      let ob := o_energy o in
+      if negb (pe_amt en =? pe_amt ob) then [i; 80; pe_amt en; pe_amt ob]
+      else if negb (pe_upd en =? pe_upd ob) then [i; 81; pe_upd en; pe_upd ob]
+      else if negb (pe_tot en =? pe_tot ob) then [i; 82; pe_tot en; pe_tot ob]
+      else []
+  end.
+
+Fixpoint check_trace (s : state) (i : Z) (tr : list (op * pobs)) : list Z :=
+  match tr with
+  | [] => []
+  | (op, o) :: t =>
+      match step s op with
+      | Ok (s', x) =>
+          if negb (o_ok o) then [i; 1; 1; 0]
+          else if negb (x_law x) then [i; 900; 0; 1]
+          else
+            let db := x_mint x - x_burn x - env_base_burn op in
+            let dl := env_locked_mint op - snd (x_lburn x) in
+            match first_nonempty [
+                    cmp_outs i (x_outs x) (o_outs o);
+                    (if db =? o_dbase o then [] else [i; 70; db; o_dbase o]);
+                    (if dl =? o_dlocked o then [] else [i; 71; dl; o_dlocked o]);
+                    cmp_energy i x o;
+                    cmp_state i s' o] with
+            | [] => check_trace s' (i + 1) t
+            | d => d
+            end
+      | Err _ =>
+          if o_ok o then [i; 1; 0; 1]
+          else match cmp_state i s o with
+               | [] => check_trace s (i + 1) t
+               | d => d
+               end
+      end
+  end.
